@@ -56,6 +56,8 @@ def _obs(c, r):
 
 
 def verdict_expr_noout(c, r, ir):
+    if "obs" not in r:
+        return None
     return "[true; false; %s]" % _obs(c, r)
 
 
@@ -68,7 +70,7 @@ def _verdict(c, r, ir, real, t):
     return ('[wf %s; agree_res agree_C05 (gen %s ""%%string None %s) %s; '
             'match %s with Ok o => C05_ok %s %s o && truth_structs_ok o %s | Panic _ => %s | _ => false end && OBS]'
             % (ir, ir, coq_options(c["opts"]), real, real, ir, coq_options(c["opts"]), t,
-               "true" if c["needs_encase"] else "false"))
+               "true" if structcases.panic_expected(c) else "false"))
 
 
 def nontrivial(c, r):
